@@ -121,6 +121,8 @@ def run(module, cfg_path, workdir, *, workers=NCPU, args=(), env=None, timeout=3
     meta = tempfile.mkdtemp(prefix="meta_", dir=workdir)
     jtmp = tempfile.mkdtemp(prefix="jtmp_", dir=workdir)
     jopts = ["-XX:+UseParallelGC", f"-Xmx{heap}", f"-Djava.io.tmpdir={jtmp}"]
+    if spec_dir != SPEC_DIR:      # a generated root module outside /verif/spec still EXTENDS the modules there
+        jopts.append(f"-DTLA-Library={SPEC_DIR}")
     if depth_first:
         jopts.append("-Dtlc2.tool.queue.IStateQueue=StateDeque")
     cmd = ["java", *jopts, "-cp", CP, "tlc2.TLC", "-workers", str(workers), "-metadir", meta,
